@@ -12,6 +12,12 @@ import warnings
 
 from pbv import core, impl
 
+try:
+    import pandas as _pd  # noqa: F401  (optional dependency of the library's table / plot output)
+    _HAVE_PANDAS = True
+except Exception:  # noqa
+    _HAVE_PANDAS = False
+
 
 def atmo(chk, thorough):
     m = impl.pb()
@@ -304,6 +310,23 @@ def output(chk, thorough):
                     chk.violation("X.Output.ColumnNumber", {**k, "column": col}, {**det, "shown_in": e["shown"][i], "got": repr(o1[1][i]), "want": repr(want_n)})
                 if o2[1][i] != want_s:
                     chk.violation("X.Output.ColumnText", {**k, "column": col}, {**det, "shown_in": e["shown"][i], "got": o2[1][i], "want": want_s})
+            if (bi + step) % 4 == 0 and _HAVE_PANDAS:
+                # the table forms of a whole result: one line per row, one column per field (in the rows' field order), the cells
+                # those of in_def_units() / formatted() under the preferences in force NOW; iteration and indexing give the rows
+                hr2 = m.HitResult(impl.simple_shot(), list(rows), True)
+                chk.stratum("output_result_as_table")
+                o3, o4 = impl.outcome(hr2.dataframe, False), impl.outcome(hr2.dataframe, True)
+                if o3[0] != "ok" or o4[0] != "ok":
+                    chk.violation("X.Output.TableRaised", k, {**det, "got": [o3[1] if o3[0] != "ok" else "ok", o4[1] if o4[0] != "ok" else "ok"]})
+                else:
+                    names = list(m.TrajectoryData._fields)
+                    num = [list(r_) for r_ in o3[1].values.tolist()]
+                    txt = [list(r_) for r_ in o4[1].values.tolist()]
+                    if list(o3[1].columns) != names or list(o4[1].columns) != names or \
+                            num != [list(r_.in_def_units()) for r_ in rows] or txt != [list(r_.formatted()) for r_ in rows]:
+                        chk.violation("X.Output.TableDiffersFromRows", k, {**det, "columns": list(o3[1].columns)})
+                if [r_ for r_ in hr2] != list(rows) or any(hr2[i_] is not rows[i_] for i_ in range(len(rows))):
+                    chk.violation("X.Output.IterationOrIndexing", k, det)
             # a quantity's own text: its display unit, the unit's digits and symbol - no preference involved
             for col, dim, slot in cols[1:3] + cols[6:7]:
                 q = getattr(row, col)
@@ -621,6 +644,8 @@ def run(chk: core.Check, replay=None) -> None:
     chk.require_strata(["service_EnableFile", "service_DisableFile", "service_SetDebug", "service_Compute", "service_compute_while_logging", "service_cdm_before_any_computation", "derived_stable", "derived_no_drift", "derived_level", "derived_muzzle", "derived_fire_stable", "derived_fire_no_drift", "validation_BCPoint", "validation_DragModel", "validation_Sight", "validation_MultiBC", "validation_rejected", "validation_accepted", "output", "output_Assign", "output_LoadPreset", "atmo_SetHumidity", "atmo_Query", "atmo_rejected", "results_flag_names", "results_first_row_slower_than", "results_zeros", "results_no_extra",
                         "results_no_zero_rows", "cfgload_ValueError", "cfgload_searched", "cfgload_explicit-file",
                         "cfgload_arguments-applied", "vectors"])
+    if _HAVE_PANDAS:
+        chk.require_strata(["output_result_as_table"])
     chk.rule.append("extra specification modules beyond the listed properties (Atmo, Results, ConfigLoad, VectorAlg, Output, Validation, Derived, Service), each with TLC design "
                     "check and exhaustive / simulated replay into the real code")
     chk.sample({"modules": ["Atmo", "Results", "ConfigLoad", "VectorAlg", "Output", "Validation", "Derived", "Service"]})
